@@ -48,9 +48,10 @@ class _ToFunctionForm(ast.NodeTransformer):
 
 def run(chk, repo: Repo):
     chk.rule("C16-R1", "explicit-matrix and function forms of each operator application are the same expression modulo A@v<->A(v,1), A.T@v<->A(v,2); "
-                       "preconditioner directions are transposes; breakdown clamp only at exactly zero curvature; the computed iterate is returned (no raising exit after the loop)", floor=8)
+                       "preconditioner directions are transposes; breakdown clamp only at exactly zero curvature; the computed iterate is returned (no raising exit after the loop); "
+                       "every stopping comparison uses the tolerance relative to a norm of the problem (scale invariance)", floor=8)
     chk.rule("C16-R2", "no in-place operation of a solver may reach x0, b, A or P", floor=5)
-    chk.rule("C16-R3", "maximize negates function and gradient together; wrappers return SciPy's x unmodified", floor=4)
+    chk.rule("C16-R3", "maximize negates function and gradient together; wrappers return SciPy's x unmodified; `method` defaults to None (SciPy chooses by bounds / constraints)", floor=4)
     chk.rule("C16-R4", "FISTA: prox(x - t*grad, t), same t; momentum only when adaptive; returns the proximal point", floor=1)
     chk.rule("C16-R5", "projections and soft-thresholding are the textbook expressions", floor=3)
     _r1(chk, repo)
